@@ -8,7 +8,7 @@ JOBS = [
     (CH + "._flush_outbufs_below_high_watermark", "W"),
     (CH + ".write_soon", "W"),
     (CH + ".send_continue", "IO"), (CH + ".send_continue", "W"),
-    (CH + ".handle_write", "IO"),
+    (CH + ".handle_write", "IO"), (CH + ".handle_close", "IO"),
     (CH + ".readable", "IO"), (CH + ".writable", "IO"),
     (CH + ".service", "W"), (CH + ".received", "IO"), (CH + ".__init__", "IO"),
 ]
